@@ -604,6 +604,7 @@ class StmtMixin:
                 pass
         if not bound:
             self.bind_opaque(s.target)
+            self.bind_declared(s.target)
         try:
             self.exec_block(s.body)
         except _Continue:
@@ -612,6 +613,19 @@ class StmtMixin:
             return
         self.havoc_names(names | mutated, {}, opaque_ok=True)
         self.havoc_fields(attrs, calls, {})
+
+    def bind_declared(self, target):
+        """loop targets of an unmodelled iterable whose type the contract declares (locals) are arbitrary values of that type"""
+        ct = getattr(self.frames[-1], "contract", None) or self.ctx.contract
+        decl = getattr(ct, "locals", {}) or {}
+        if isinstance(target, ast.Name) and target.id in decl:
+            ty = self.ptype(decl[target.id])
+            if ty != OPQ:
+                v = self.ctx.fresh(ty, target.id)
+                self.env[target.id] = v
+        elif isinstance(target, (ast.Tuple, ast.List)):
+            for e in target.elts:
+                self.bind_declared(e)
 
     def bind_opaque(self, target):
         if isinstance(target, ast.Name):
